@@ -28,7 +28,7 @@ TRUSTED = [
     "numbers within 15 significant digits, integers within 2^53; datetimes in UTC; ASCII names",
 ]
 ASSUMPTIONS = [
-    "builders are those cog derives (FromAST + the option veneers rename / omit / unfold_boolean / struct_fields_as_options / struct_fields_as_arguments / array_to_append / map_to_index / duplicate) on schemas of the construct grammar",
+    "builders are those cog derives (FromAST + the option veneers rename / omit / unfold_boolean / struct_fields_as_options / struct_fields_as_arguments / array_to_append / map_to_index / duplicate on random schemas of the construct grammar; plus the targeted scenarios of vlib/gencode_bld.py: add_option with multi-depth assignments under nested optional structs, add_assignment constants shared by several options, array_to_append + disjunction_as_options on lists of unions)",
     "`valid never fails` is judged per argument: an error Build() reports for a field the call sequence never assigned is not attributed to the argument",
 ]
 
@@ -359,6 +359,11 @@ def run(ctx, verdict, replay=None, model_ok=True):
                 k += 1
                 text = add_defaults(rng, srcgen.render(s, fmt), fmt)
                 batch.add(s, fmt, veneers=gen_veneers(rng, s) if rng.random() < 0.75 else None, text=text)
+        # targeted shapes: multi-assignment options under nested OPTIONAL structs (add_option), options sharing a
+        # constant side-assignment (add_assignment), per-branch appending options of a list of a union
+        for rep in range(3 if thorough else 1):
+            for sc in gb.scenarios(rng, prefix="t%d" % rep):
+                batch.add(srcgen.project(sc["schema"], sc["fmt"]), sc["fmt"], veneers=sc["veneers"])
     batch.generate()
     batch.build_go_driver()
     gen_hist = {}
